@@ -245,6 +245,11 @@ class Run:
     def corr(self, target, fname, arg, impl):
         return self.B.add(target, fname, arg, impl)
 
+    def spec(self, fname, t, py_value):
+        """cross-check of the two statements of the RFC grammar: the Coq recogniser (Model/*_value, which the theorems
+        are about) against the harness's own reading (regexes above, which the direct oracle uses)"""
+        self.B.add("RFC recogniser " + fname + " (Coq) vs harness regex", fname, t, ["none"] if py_value is None else py_value)
+
     def suspect(self, fid, what, example, impl, idx):
         """a property failure that lies in the class of open finding [fid]; decided after the model ran:
         known iff the implementation failed exactly as the faithful model predicts"""
@@ -338,6 +343,7 @@ def sec_dates(R):
         R.corr("vDate.from_ical", "dec_date", t, back)
         R.corr("vDDDTypes.from_ical", "ddd_from_ical", t, obs(lambda: vDDDTypes.from_ical(t), c_ddd))
         g = g_date(t)
+        R.spec("date_value", t, g)
         if g is not None and back != g:
             R.fail("date grammar: a grammar-valid DATE text does not decode to its value", t, back, g)
 
@@ -409,6 +415,7 @@ def sec_times(R):
         i = R.corr("vTime.from_ical", "dec_time", t, back)
         R.corr("vDDDTypes.from_ical", "ddd_from_ical", t, obs(lambda: vDDDTypes.from_ical(t), c_ddd))
         g = g_time(t)
+        R.spec("time_value", t, g)
         if g is not None and back != g:
             fid = "C03-F1" if g[2] == 60 else "C03-F2" if g[3] else None
             if fid:
@@ -463,6 +470,7 @@ def sec_datetimes(R):
         via = obs(lambda: vDDDTypes.from_ical(t), c_ddd)
         j = R.corr("vDDDTypes.from_ical", "ddd_from_ical", t, via)
         g = g_datetime(t)
+        R.spec("datetime_value", t, g)
         if g is not None:
             if back != g:
                 if g[5] == 60:
@@ -568,6 +576,7 @@ def sec_durations(R):
         g = g_dur(t)
         if v is not None:
             assert g == v, (t, g, v)
+        R.spec("dur_value", t, None if g is None else c_big(g))
         res.dist("duration:grammar-text" if g is not None else "duration:malformed-or-near")
         res.count(("dur-text", t), nontrivial=True)
         back = obs(lambda: vDuration.from_ical(t), c_td)
@@ -620,6 +629,7 @@ def sec_offsets(R):
         texts.append("".join(rng.choice("+-0123456789 _x") for _ in range(rng.choice((4, 5, 5, 6, 7, 7, 8)))))
     for t in texts:
         g = g_offset(t)
+        R.spec("offset_value", t, g)
         res.dist("offset:grammar-text" if g is not None else "offset:malformed-or-near")
         res.count(("offset-text", t), nontrivial=True)
         back = obs(lambda: vUTCOffset.from_ical(t), c_td)
@@ -834,6 +844,20 @@ def sec_binary(R):
             R.fail("binary round trip: from_ical(to_ical(text)) is not the UTF-8 octets of text", s, back)
         if not BIN_RE.fullmatch(t):
             R.fail("binary: to_ical output is not RFC 5545 binary", s, t)
+    # the same payloads given as UTF-8 bytes (implementation only: the bytes branch of the constructor, to_unicode with
+    # 'utf-8-sig', is not modelled): open finding C03-F6 when the payload starts with the UTF-8 BOM
+    for s in texts:
+        if any(0xD800 <= ord(c) <= 0xDFFF for c in s):
+            continue
+        b = s.encode("utf-8")
+        res.dist("binary:utf8-bytes-payload (implementation only)")
+        res.count(("binary-bytes", b), nontrivial=len(b) > 0)
+        back = obs(lambda: vBinary.from_ical(c_text(vBinary(b).to_ical())), c_bytes)
+        if back != c_bytes(b):
+            if b.startswith(b"\xef\xbb\xbf") and back == c_bytes(b[3:]):
+                R.suspect("C03-F6", "vBinary(bytes) drops a leading UTF-8 BOM of the payload", {"payload_hex": b.hex()}, back, None)
+            else:
+                R.fail("binary round trip of a UTF-8 bytes payload", b.hex(), back, c_bytes(b))
     # grammar texts and malformed ones: the quirks of the non-strict decoder
     mal = ["QQ", "QQ=", "QQ==", "Q=Q=", "Q", "QUJD!!REVG", "QQ==QQ==", "=QQ==", "é", "QR==", "QUI=", "QUJ=", "====", "=", "Q===",
            "QUJD\n", "QU JD", "QUJDRA=\n="]
